@@ -1,12 +1,16 @@
-(* C13/C14 model: the four selectors (round-robin, random, mod-hash, consistent hash) as sequential state
-   machines over Refresh / Add / Remove / Select, and selector.BuildStaticWeightList as repaired.
-   Endpoints are identified by host (HashKey); skey is Endpoint.String() (tie-break of the weight cycle). *)
+(* C13/C14 model: the four selectors of tars/selector (round-robin, random, mod-hash, consistent hash) as
+   sequential state machines over Refresh / Add / Remove / Select, and selector.BuildStaticWeightList.
+   Definitions only.  Endpoints are identified by host (Endpoint.HashKey); skey is Endpoint.String(), the
+   tie-break of the weight cycle.  Go panics (division by zero, make with a negative capacity, index out of
+   range) are explicit outcomes; random draws (rand.Intn at rebuild and in random.Select) are oracle arguments
+   of the operations; the md5-derived virtual nodes of the consistent hash are a Section variable. *)
 From Coq Require Import List NArith ZArith Bool Arith Lia.
-From TarsV Require Import Base.Hex.
+From TarsV Require Import Base.Hex Gen.Consts.
 Import ListNotations.
 Open Scope Z_scope.
 
 Record ep := { host : list N; skey : list N; wgt : Z; wty : Z }.
+Definition dummy : ep := {| host := []; skey := []; wgt := 0; wty := 0 |}.
 
 Fixpoint bytes_ltb (a b : list N) : bool :=       (* Go string < *)
   match a, b with
@@ -15,9 +19,10 @@ Fixpoint bytes_ltb (a b : list N) : bool :=       (* Go string < *)
   | x :: a', y :: b' => if N.ltb x y then true else if N.ltb y x then false else bytes_ltb a' b'
   end.
 
+(* ---------- member list + host set (the same four functions in each selector) ---------- *)
 Definition has_host (h : list N) (l : list ep) : bool := existsb (fun e => bytes_eqb (host e) h) l.
 
-(* addLocked / Add: append unless the host is already there; Remove: drop the first entry with that host *)
+(* addLocked: append unless the host is already there; Remove: drop the first entry with that host *)
 Definition add_ep (l : list ep) (e : ep) : list ep * bool :=
   if has_host (host e) l then (l, false) else (l ++ [e], true).
 Fixpoint remove_host (h : list N) (l : list ep) : list ep :=
@@ -30,119 +35,240 @@ Definition remove_ep (l : list ep) (e : ep) : list ep * bool :=
 Definition refresh_eps (l : list ep) : list ep := fold_left (fun acc e => fst (add_ep acc e)) l [].
 
 (* ---------- BuildStaticWeightList ---------- *)
-Definition min_static : Z := 10.
-Definition max_static : Z := 100.
+Inductive psite := DivByZero | MakeSliceCap | IndexRange.
+Inductive outcome (A : Type) := Ok (a : A) | Panic (s : psite).
+Arguments Ok {A} a.
+Arguments Panic {A} s.
 
-Definition zmax_list (l : list Z) (d : Z) : Z := fold_left Z.max l d.
-Definition zmin_list (l : list Z) (d : Z) : Z := fold_left Z.min l d.
+Definition min_static : Z := Z.of_N c_minStaticWeightLimit.
+Definition max_static : Z := Z.of_N c_maxStaticWeightLimit.
+Definition max_int32 : Z := 2147483647.
+Definition min_int32 : Z := -2147483648.
 
-(* candidates of one smooth-weighted-round-robin round: (current value, index) *)
-Definition better (eps : list ep) (a b : Z * nat) : bool :=
-  (* is a after b in the ascending sort, i.e. the larger one: greater value, ties by greater String() *)
+(* Go integer division: truncates toward zero, panics on a zero divisor *)
+Definition go_div (a b : Z) : outcome Z := if b =? 0 then Panic DivByZero else Ok (Z.quot a b).
+
+(* candidates of one smooth-weighted-round-robin round: (current value, endpoint index) *)
+Definition better (l : list ep) (a b : Z * nat) : bool :=
+  (* a sorts after b in the ascending sort (value, then String()), i.e. a is taken before b *)
   if fst b <? fst a then true else if fst a <? fst b then false
-  else bytes_ltb (skey (nth (snd b) eps {| host := []; skey := []; wgt := 0; wty := 0 |}))
-                 (skey (nth (snd a) eps {| host := []; skey := []; wgt := 0; wty := 0 |})).
+  else bytes_ltb (skey (nth (snd b) l dummy)) (skey (nth (snd a) l dummy)).
 
-Fixpoint pick_max (eps : list ep) (best : Z * nat) (l : list (Z * nat)) : Z * nat :=
-  match l with [] => best | c :: r => pick_max eps (if better eps c best then c else best) r end.
+Fixpoint pick_max (l : list ep) (best : Z * nat) (cs : list (Z * nat)) : Z * nat :=
+  match cs with [] => best | c :: r => pick_max l (if better l c best then c else best) r end.
 
-Definition swrr_round (eps : list ep) (total : Z) (wof : nat -> Z) (cur : list (Z * nat)) : option nat * list (Z * nat) :=
-  match cur with
-  | [] => (None, [])
-  | c0 :: r =>
-      let m := pick_max eps c0 r in
-      (Some (snd m),
-       map (fun c => if Nat.eqb (snd c) (snd m) then (fst c - total + wof (snd c), snd c) else (fst c + wof (snd c), snd c)) cur)
-  end.
+(* idToWeight: a Go map read, 0 when the key is absent *)
+Definition wof (pos : list (nat * Z)) (i : nat) : Z :=
+  match find (fun p => Nat.eqb (fst p) i) pos with Some p => snd p | None => 0 end.
 
-Fixpoint swrr_rounds (n : nat) (eps : list ep) (total : Z) (wof : nat -> Z) (cur : list (Z * nat)) : list nat :=
+Definition swrr_step (total : Z) (w : nat -> Z) (j : nat) (cur : list (Z * nat)) : list (Z * nat) :=
+  map (fun c => if Nat.eqb (snd c) j then (fst c - total + w (snd c), snd c) else (fst c + w (snd c), snd c)) cur.
+
+Fixpoint swrr_rounds (n : nat) (l : list ep) (total : Z) (w : nat -> Z) (cur : list (Z * nat)) : list nat :=
   match n with
   | O => []
-  | S k => match swrr_round eps total wof cur with
-           | (Some i, cur') => i :: swrr_rounds k eps total wof cur'
-           | (None, _) => []
+  | S k => match cur with
+           | [] => []                                   (* nothing to append in this and all later rounds *)
+           | c0 :: r => let j := snd (pick_max l c0 r) in j :: swrr_rounds k l total w (swrr_step total w j cur)
            end
   end.
 
 Fixpoint indexed {A} (i : nat) (l : list A) : list (nat * A) :=
   match l with [] => [] | x :: r => (i, x) :: indexed (S i) r end.
 
-(* Go int division truncates toward zero *)
-Definition build_static_weight_list (eps : list ep) : list nat :=
-  if existsb (fun e => negb (wty e =? 1)) eps then []          (* some endpoint is not static-weighted: nil *)
+Fixpoint scale_all (range maxw : Z) (l : list (nat * ep)) : outcome (list (nat * Z)) :=
+  match l with
+  | [] => Ok []
+  | (i, e) :: r =>
+      match go_div (wgt e * range) maxw with
+      | Panic s => Panic s
+      | Ok q => match scale_all range maxw r with Panic s => Panic s | Ok t => Ok ((i, q) :: t) end
+      end
+  end.
+
+Definition clamp_range (q : Z) : Z :=
+  let q := if q <? min_static then min_static else q in
+  if max_static <? q then max_static else q.
+
+(* result: the cycle of endpoint indexes, and the number of int slots asked from the allocator
+   (capacity passed to make + entries appended) *)
+Inductive bres := BOk (cache : list nat) (alloc : Z) | BPanic (s : psite).
+
+(* repaired = true : the code in the tree (fix 675061a): returns nil when no weight is positive, capacity = len(endpoints)
+   repaired = false: the code as pinned: no guard, capacity = sum of the raw weights + 100 *)
+Definition bswl_gen (repaired : bool) (l : list ep) : bres :=
+  if existsb (fun e => negb (wty e =? 1)) l then BOk [] 0          (* some endpoint is not static-weighted: nil *)
   else
-    let ws := map wgt eps in
-    let maxw := zmax_list ws (-2147483648) in
-    let minw := zmin_list ws 2147483647 in
-    if maxw <=? 0 then []                                      (* repaired: no positive weight *)
+    let ws := map wgt l in
+    let maxw := fold_left Z.max ws min_int32 in
+    let minw := fold_left Z.min ws max_int32 in
+    if repaired && (maxw <=? 0) then BOk [] 0
     else
-      let '(range, total0) :=
-        if 0 <? minw then (Z.min max_static (Z.max min_static (Z.quot maxw minw)), 0) else (1, 1) in
-      let scaled := map (fun p => (fst p, Z.quot (wgt (snd p) * range) maxw)) (indexed 0 eps) in
-      let zeros := map fst (filter (fun p => snd p <=? 0) scaled) in
-      let pos := filter (fun p => 0 <? snd p) scaled in
-      let total := total0 + fold_left Z.add (map snd pos) 0 in
-      let wof := fun i => match find (fun p => Nat.eqb (fst p) i) pos with Some p => snd p | None => 0 end in
-      zeros ++ swrr_rounds (Z.to_nat total) eps total wof (map (fun p => (snd p, fst p)) pos).
+      match (if 0 <? minw then match go_div maxw minw with Ok q => Ok (clamp_range q, 0) | Panic s => Panic s end
+             else Ok (1, 1)) with
+      | Panic s => BPanic s
+      | Ok (range, total0) =>
+          let cap := if repaired then Z.of_nat (length l) else fold_left Z.add ws 0 + 100 in
+          if cap <? 0 then BPanic MakeSliceCap
+          else
+            match scale_all range maxw (indexed 0 l) with
+            | Panic s => BPanic s
+            | Ok scaled =>
+                let zeros := map fst (filter (fun p => snd p <=? 0) scaled) in
+                let pos := filter (fun p => 0 <? snd p) scaled in
+                let total := total0 + fold_left Z.add (map snd pos) 0 in
+                let cache := zeros ++ swrr_rounds (Z.to_nat total) l total (wof pos) (map (fun p => (snd p, fst p)) pos) in
+                BOk cache (cap + Z.of_nat (length cache))
+            end
+      end.
+
+Definition build_static_weight_list := bswl_gen true.
 
 (* ---------- selectors ---------- *)
 Inductive kind := RoundRobin | Random | ModHash | ConHash.
-Record sel := { eps : list ep; cache : list nat }.
-Definition rebuild (weighted : bool) (l : list ep) : sel :=
-  {| eps := l; cache := if weighted then build_static_weight_list l else [] |}.
 
-Definition dummy : ep := {| host := []; skey := []; wgt := 0; wty := 0 |}.
-
-(* the list a cursor walks over: the weighted cycle when there is one, else the endpoints in order *)
-Definition cycle (s : sel) : list ep :=
-  match cache s with
-  | [] => eps s
-  | c => map (fun i => nth i (eps s) dummy) c
-  end.
-
-(* mod-hash: slot h mod N of the installed list / weighted cycle *)
-Definition modhash_select (s : sel) (code : N) : option ep :=
-  match eps s with
-  | [] => None
-  | _ => Some (nth (N.to_nat (N.modulo code (N.of_nat (length (cycle s))))) (cycle s) dummy)
-  end.
-
-(* round-robin: the i-th selection after a rebuild that started at position p (cursor is incremented first; uint64 wrap) *)
-Definition rr_select (s : sel) (p : N) (i : N) : option ep :=
-  match eps s with
-  | [] => None
-  | _ => Some (nth (N.to_nat (N.modulo (N.modulo (p + i) 18446744073709551616) (N.of_nat (length (cycle s))))) (cycle s) dummy)
-  end.
-
-(* ---------- consistent hash: the ring as the code builds it, hash points supplied by the implementation ---------- *)
-(* points h k : the virtual-node keys of host h for k rounds (abstract: md5-derived in the code) *)
-Section ring.
+Section selectors.
+  (* points h k : the virtual-node keys of host h for k rounds (md5-derived in the code; abstract here) *)
   Variable points : list N -> nat -> list N.
 
+  Definition ring := list (N * ep).                      (* hashRing: point -> owner *)
+  Record sel := { eps : list ep; cache : list nat; pos : N; wpos : N; hring : ring }.
+  Definition sel0 : sel := {| eps := []; cache := []; pos := 0; wpos := 0; hring := [] |}.
+
   Definition ch_rounds (weighted : bool) (w : Z) : nat :=
-    let x := if weighted then w else 100 in
+    let x := if weighted then w else Z.of_N c_ConHashVirtualNodes in
     if 0 <? x then (let q := Z.quot x 4 in if q =? 0 then 1%nat else Z.to_nat q) else 0%nat.
 
-  (* hashRing: point -> owner, later insert overwrites, delete removes the key *)
-  Definition ring := list (N * list N).
-  Fixpoint ring_set (r : ring) (k : N) (h : list N) : ring :=
+  (* later insert overwrites, as the Go map does *)
+  Fixpoint ring_set (r : ring) (k : N) (e : ep) : ring :=
     match r with
-    | [] => [(k, h)]
-    | (k', h') :: t => if N.eqb k k' then (k, h) :: t else (k', h') :: ring_set t k h
+    | [] => [(k, e)]
+    | (k', e') :: t => if N.eqb k k' then (k, e) :: t else (k', e') :: ring_set t k e
     end.
-  Definition ring_del (r : ring) (k : N) : ring := filter (fun p => negb (N.eqb (fst p) k)) r.
+  Definition ep_points (weighted : bool) (e : ep) : list N := points (host e) (ch_rounds weighted (wgt e)).
   Definition ring_add (weighted : bool) (r : ring) (e : ep) : ring :=
-    fold_left (fun acc k => ring_set acc k (host e)) (points (host e) (ch_rounds weighted (wgt e))) r.
-  Definition ring_remove (weighted : bool) (r : ring) (e : ep) : ring :=
-    fold_left ring_del (points (host e) (ch_rounds weighted (wgt e))) r.
+    fold_left (fun acc k => ring_set acc k e) (ep_points weighted e) r.
+  (* Remove: every virtual node owned by that host goes *)
+  Definition ring_remove (r : ring) (h : list N) : ring := filter (fun p => negb (bytes_eqb (host (snd p)) h)) r.
 
-  (* lookup: owner of the least point >= code, else of the least point *)
-  Definition ring_lookup (r : ring) (code : N) : option (list N) :=
-    let ge := filter (fun p => N.leb code (fst p)) r in
-    let least (l : ring) := fold_left (fun (b : option (N * list N)) p =>
-                               match b with None => Some p | Some q => if N.ltb (fst p) (fst q) then Some p else Some q end) l None in
-    match least ge with
+  (* lookup: owner of the least point >= code, else of the least point (sort.Search over the sorted keys, wrapping) *)
+  Definition least (l : ring) : option (N * ep) :=
+    fold_left (fun (b : option (N * ep)) p =>
+                 match b with None => Some p | Some q => if N.ltb (fst p) (fst q) then Some p else Some q end) l None.
+  Definition ring_lookup (r : ring) (code : N) : option ep :=
+    match least (filter (fun p => N.leb code (fst p)) r) with
     | Some p => Some (snd p)
     | None => match least r with Some p => Some (snd p) | None => None end
     end.
-End ring.
+
+  Definition two64 : N := 18446744073709551616.
+  Definition two32 : N := 4294967296.
+  Definition intn (r : N) (n : nat) : N := N.modulo r (N.of_nat n).     (* rand.Intn(n), n > 0 *)
+
+  (* reBuildLocked (round-robin, random, mod-hash); r1 r2: the two draws of the round-robin rebuild *)
+  Definition rebuild (k : kind) (weighted : bool) (l : list ep) (r1 r2 : N) : outcome sel :=
+    match (if weighted then build_static_weight_list l else BOk [] 0) with
+    | BPanic s => Panic s
+    | BOk c _ =>
+        Ok {| eps := l; cache := c;
+              pos := match k, l with RoundRobin, _ :: _ => intn r1 (length l) | _, _ => 0 end;
+              wpos := match k, c with RoundRobin, _ :: _ => intn r2 (length c) | _, _ => 0 end;
+              hring := [] |}
+    end.
+
+  Inductive op :=
+  | Refresh (l : list ep) (r1 r2 : N)
+  | Add (e : ep) (r1 r2 : N)
+  | Remove (e : ep) (r1 r2 : N)
+  | Select (code : N) (rnd : N).
+
+  Inductive res := RDone | RAdded (ok : bool) | RRemoved (ok : bool) | RSel (e : ep) | RErr | RPanic (s : psite).
+
+  (* endpoints[cache[i mod len cache]] resp. endpoints[i mod len] with Go's bounds checks *)
+  Definition pick (s : sel) (i : N) : res :=
+    match cache s with
+    | [] => match nth_error (eps s) (N.to_nat (N.modulo i (N.of_nat (length (eps s))))) with
+            | Some e => RSel e | None => RPanic IndexRange end
+    | c => match nth_error c (N.to_nat (N.modulo i (N.of_nat (length c)))) with
+           | None => RPanic IndexRange
+           | Some j => match nth_error (eps s) j with Some e => RSel e | None => RPanic IndexRange end
+           end
+    end.
+
+  (* length of what a cursor walks over: the weighted cycle when there is one, else the member list *)
+  Definition cyc_len (s : sel) : nat := match cache s with [] => length (eps s) | c => length c end.
+
+  Definition select (k : kind) (s : sel) (code rnd : N) : sel * res :=
+    match k with
+    | ConHash => (s, match ring_lookup (hring s) (N.modulo code two32) with Some e => RSel e | None => RErr end)
+    | _ =>
+        match eps s with
+        | [] => (s, RErr)
+        | _ =>
+            match k with
+            | RoundRobin =>
+                match cache s with
+                | [] => let p := N.modulo (pos s + 1) two64 in
+                        let s' := {| eps := eps s; cache := cache s; pos := p; wpos := wpos s; hring := hring s |} in
+                        (s', pick s' p)
+                | _ => let p := N.modulo (wpos s + 1) two64 in
+                       let s' := {| eps := eps s; cache := cache s; pos := pos s; wpos := p; hring := hring s |} in
+                       (s', pick s' p)
+                end
+            | Random => (s, pick s (intn rnd (cyc_len s)))
+            | _ => (s, pick s (N.modulo code two32))
+            end
+        end
+    end.
+
+  Definition with_eps (s : sel) (l : list ep) (r : ring) : sel :=
+    {| eps := l; cache := []; pos := 0; wpos := 0; hring := r |}.
+
+  Definition step (k : kind) (weighted : bool) (s : sel) (o : op) : sel * res :=
+    match o with
+    | Select code rnd => select k s code rnd
+    | Refresh l r1 r2 =>
+        let l' := refresh_eps l in
+        match k with
+        | ConHash => (with_eps s l' (fold_left (ring_add weighted) l' []), RDone)
+        | _ => match rebuild k weighted l' r1 r2 with Ok s' => (s', RDone) | Panic p => (s, RPanic p) end
+        end
+    | Add e r1 r2 =>
+        let '(l', ok) := add_ep (eps s) e in
+        if ok then
+          match k with
+          | ConHash => (with_eps s l' (ring_add weighted (hring s) e), RAdded true)
+          | _ => match rebuild k weighted l' r1 r2 with Ok s' => (s', RAdded true) | Panic p => (s, RPanic p) end
+          end
+        else (s, RAdded false)
+    | Remove e r1 r2 =>
+        let '(l', ok) := remove_ep (eps s) e in
+        if ok then
+          match k with
+          | ConHash => (with_eps s l' (ring_remove (hring s) (host e)), RRemoved true)
+          | _ => match rebuild k weighted l' r1 r2 with Ok s' => (s', RRemoved true) | Panic p => (s, RPanic p) end
+          end
+        else (s, RRemoved false)
+    end.
+
+  (* a history: the state it leads to and the results it produced, oldest first *)
+  Fixpoint run (k : kind) (weighted : bool) (s : sel) (h : list op) : sel * list res :=
+    match h with
+    | [] => (s, [])
+    | o :: t => let '(s', r) := step k weighted s o in let '(s'', rs) := run k weighted s' t in (s'', r :: rs)
+    end.
+
+  (* the abstract set the property speaks about: keyed by host, first occurrence wins in Refresh,
+     Add ignored if present, Remove by host *)
+  Definition set_step (l : list ep) (o : op) : list ep :=
+    match o with
+    | Refresh n _ _ => refresh_eps n
+    | Add e _ _ => fst (add_ep l e)
+    | Remove e _ _ => fst (remove_ep l e)
+    | Select _ _ => l
+    end.
+  Definition set_of_history (h : list op) : list ep := fold_left set_step h [].
+
+  (* the ring of a set, built in list order *)
+  Definition ring_of_set (weighted : bool) (l : list ep) : ring := fold_left (ring_add weighted) l [].
+End selectors.
